@@ -569,7 +569,11 @@ class HTTP1Connection(httputil.HTTPConnection):
         if connection_header is not None:
             connection_header = connection_header.lower()
         if start_line.version == "HTTP/1.1":
-            return connection_header != "close"
+            # The Connection header is a comma-separated list of options.
+            if connection_header is None:
+                return True
+            options = [o.strip() for o in connection_header.split(",")]
+            return "close" not in options
         elif (
             "Content-Length" in headers
             or is_transfer_encoding_chunked(headers)
